@@ -671,8 +671,46 @@ func storedSame(orig, re []byte) string {
 	return hx.Hex(re)
 }
 
+// decodeSomeWithNestedLevels builds `levels` nested SomeStorables one by one: time and memory are linear in
+// a number read from the input (up to 2^64).  Bytes announcing more than 2^20 levels are not handed to
+// the decoder (the harness would hang / run out of memory); the driver counts them as skipped.
+func storedHugeSomeLevels(b []byte) bool {
+	tag := byte(values.CBORTagSomeValueWithNestedLevels)
+	for i := 0; i+4 < len(b); i++ {
+		if b[i] == 0xd8 && b[i+1] == tag && b[i+2]&0xe0 == 0x80 {
+			j := i + 3
+			if b[i+2]&0x1f >= 24 { // array head with an argument byte (non-canonical but accepted)
+				j++
+			}
+			if j >= len(b) {
+				continue
+			}
+			var v uint64
+			switch b[j] {
+			case 0x1a:
+				if j+4 < len(b) {
+					v = uint64(b[j+1])<<24 | uint64(b[j+2])<<16 | uint64(b[j+3])<<8 | uint64(b[j+4])
+				}
+			case 0x1b:
+				if j+8 < len(b) {
+					for k := 1; k <= 8; k++ {
+						v = v<<8 | uint64(b[j+k])
+					}
+				}
+			}
+			if v > 1<<20 {
+				return true
+			}
+		}
+	}
+	return false
+}
+
 // decode b as a storable; render; re-encode
 func storedDecodeObs(b []byte) string {
+	if storedHugeSomeLevels(b) {
+		return "skipped-huge-some-levels"
+	}
 	s, n, err := storedDecode(b)
 	if err != nil {
 		return "err"
